@@ -340,8 +340,12 @@ func replayAckGraph(c *core.Ctx, drv string, g *core.Graph, nodes []ackNode, off
 		if len(key) > 160 {
 			key = key[:160]
 		}
-		c.Violate(key, fmt.Sprintf("real AcksToSend differs from UdpAcks.tla (mode %s, offset %d) after init %v, [%s] then %s: %s",
-			src.Mode, offset, m.Req.(map[string]any)["init"], opsString(m.Path), m.Op, bad), m.Req)
+		initDesc := fmt.Sprint(m.Req.(map[string]any)["init"])
+		if len(initDesc) > 80 {
+			initDesc = fmt.Sprintf("the %d one-number ranges {2},{4},.. added in a seeded random order (see replay)", len(m.Req.(map[string]any)["init"].([][2]int)))
+		}
+		c.Violate(key, fmt.Sprintf("real AcksToSend differs from UdpAcks.tla (mode %s, offset %d) after init %s, [%s] then %s: %s",
+			src.Mode, offset, initDesc, opsString(m.Path), m.Op, bad), m.Req)
 		reported++
 	}
 	return r.ops, nil
